@@ -362,7 +362,7 @@ class Section(Entity):
         nf = self.file
         sources = []
         for blk in nf.blocks:
-            sources.extend(src for src in blk.sources
+            sources.extend(src for src in blk.find_sources()
                            if (src.metadata is not None and
                                src.metadata.id == self.id))
         return sources
